@@ -35,7 +35,6 @@ package scalar
 
 import (
 	"encoding/binary"
-	"fmt"
 	"math/bits"
 )
 
@@ -69,7 +68,7 @@ func (s *unpackedScalar) SetBytes(in []byte) *unpackedScalar {
 // SetBytesWide reduces a 64 byte / 512 bit scalar mod l.
 func (s *unpackedScalar) SetBytesWide(in []byte) (*unpackedScalar, error) {
 	if len(in) != ScalarWideSize {
-		return nil, fmt.Errorf("curve/scalar/u64: unexpected wide input size")
+		return nil, errUnexpectedInputSize
 	}
 
 	var words [8]uint64
